@@ -511,10 +511,6 @@ impl Vm {
         }
 
         self.globenv
-            .iter_bindings()
-            .for_each(|it| self.heap.mark(*it));
-
-        self.globenv
             .iter_slots()
             .for_each(|it| self.heap.mark_vcell(it));
 
@@ -524,6 +520,14 @@ impl Vm {
         self.heap.mark_vcell(&self.acc);
         self.heap.mark(self.ip.0);
         self.heap.mark(self.ep);
+
+        // Everything live has been marked, so the slots live code refers to are known:
+        // a binding that is neither defined nor referred to goes, the symbols of the rest
+        // are roots.
+        self.globenv.release_unreferenced(self.heap.global_refs());
+        self.globenv
+            .iter_bindings()
+            .for_each(|it| self.heap.mark(*it));
         self.heap.sweep();
 
         // If after GC the heap utilization is still high, grow the heap.
